@@ -205,6 +205,7 @@ class DirectCollocation(SamplingMethod):
         count_f_eval = 0
         for k in range(self.N):
             dt = dts[k]
+            self.add_coupling_constraints(stage, opti, k)
             p = self.get_p_sys(stage,k,include_signals=False)
             for i in range(self.M):
                 for j in range(self.degree):
